@@ -63,6 +63,174 @@ def gen_data(rng, T, n, kind):
     return X
 
 
+def wf_fail(G, names, L, nsh):
+    """the C06 statement on a returned graph -> (None or what failed, canonical (src, dst, lag, cmi, count) records)"""
+    f2 = None
+    recs = []
+    if not isinstance(G, nx.MultiDiGraph):
+        f2 = f"returned {type(G).__name__}, not a multi-edge directed graph"
+    elif list(G.nodes()) != list(names):
+        f2 = f"nodes {list(G.nodes())} are not the input variables in input order {names}"
+    else:
+        for u, v, d in G.edges(data=True):
+            lag, cmi, p = d.get("lag"), d.get("cmi"), d.get("p_value")
+            if u not in names or v not in names:
+                f2 = f"edge endpoint {(u, v)} is not an input variable"
+            elif isinstance(lag, (bool, np.bool_)) or not isinstance(lag, (int, np.integer)):
+                f2 = f"lag {lag!r} of type {type(lag).__name__} is not an integer"
+            elif not (1 <= lag <= L):
+                f2 = f"lag {lag} outside 1..{L}"
+            elif not isinstance(cmi, (float, int, np.floating, np.integer)) or (np.isfinite(cmi) and cmi < 0):
+                f2 = f"cmi {cmi!r} is not a real number that is never finite negative"
+            elif p is None or not (0 <= p <= 1) or abs(p * nsh - round(p * nsh)) > 1e-9:
+                f2 = f"p_value {p!r} is not a multiple of 1/{nsh} in [0,1]"
+            if f2:
+                break
+            recs.append((names.index(u), names.index(v), int(lag), float(cmi), int(round(p * nsh))))
+        if f2 is None and len({r[:3] for r in recs}) != len(recs):
+            f2 = "a (source, target, lag) triple occurs twice"
+    return f2, recs
+
+
+# ----------------------------------------------------------------------------- whole-graph correspondence
+PIPE_IMPORTS = ("From Coq Require Import List ZArith QArith Bool.\nImport ListNotations.\n"
+                "From CE Require Import Model.Harness Model.Dispatch Model.Discover Model.Pipeline.\nOpen Scope nat_scope.\n")
+DYADIC = [0.5, 0.25, 0.125, 0.375, 0.0625, 0.1875]
+OTHER = [0.05, 0.1, 0.2, 0.3]
+
+
+def edges_lit(recs):
+    return coq_list([f"({a}, {b}, {l}, {coq_val(c)}, ({k2})%Z)" for a, b, l, c, k2 in recs])
+
+
+def pipeline_stream(chk, disc):
+    """The REAL discover_network against the end-to-end Coq model (Model/Pipeline.v): same scripted oracle on both
+    sides, whole edge list with attributes compared inside the kernel."""
+    import pipe_seam as ps
+    import importlib
+    cmi_mod = importlib.import_module("causationentropy.core.information.conditional_mutual_information")
+    rng = np.random.default_rng([chk.seed, 606])
+    import time
+    t_start = time.time()
+    cases, pf, desc = [], [], []
+    lcases, lpf, ldesc = [], [], []
+    n_runs = 96 if chk.tier == "quick" else 2400
+    t = 0
+    while t < n_runs:
+        kind = ["graded", "graded", "ties", "graded", "lasso", "graded", "ties", "graded"][t % 8]
+        method = ["standard", "alternative"][(t // 8 + t) % 2] if kind != "lasso" else ["lasso", "information_lasso"][(t // 8) % 2]
+        n, L = int(rng.integers(2, 5)), int(rng.integers(1, 4))
+        T = int(rng.integers(30, 61))
+        nsh = int(rng.integers(20, 61)) if rng.random() < 0.85 else int(rng.integers(2, 12))
+        if t % 16 == 5:                     # beyond any internal batch size / early-stopping floor; kept small otherwise
+            nsh, n, L = int(rng.choice([101, 120, 150])), min(n, 3), min(L, 2)
+        pool = DYADIC if rng.random() < 0.7 else OTHER
+        a_f, a_b = float(rng.choice(pool)), float(rng.choice(pool))
+        if rng.random() < 0.15:
+            a_f = a_b = 0.05 if pool is OTHER else 0.25
+        salt = int(rng.integers(2**31))
+        series = rng.standard_normal((T, n))
+        if kind == "lasso":                 # planted couplings so that the solver's support is not empty
+            for tt in range(L, T):
+                series[tt, n - 1] += 0.9 * series[tt - 1, 0] + (0.6 * series[tt - L, 1] if n > 2 else 0.0)
+        use_df = rng.random() < 0.3
+        names = [f"s{3 * j + 1}" for j in range(n)] if use_df else [f"X{j}" for j in range(n)]
+        data = pd.DataFrame(series, columns=names) if use_df else series
+        mode = "ties" if kind == "ties" else "graded"
+        floor_seam = kind == "ties" or rng.random() < 0.25
+        try:
+            with lib.quiet():
+                G, scr, orders, supports = ps.run_real(disc, cmi_mod, data, series, method, L, nsh, a_f, a_b, salt, mode, floor_seam)
+        except Exception as e:              # the real function raised under the scripted estimator: a correspondence failure, not a crash
+            t += 1
+            cases.append("{| pc_std := true; pc_ordered := true; pc_seam_ok := false; pc_n := 0; pc_L := 1; pc_scale := 1%positive; pc_aF := 1%Z; "
+                         "pc_bF := 2%Z; pc_aB := 1%Z; pc_bB := 2%Z; pc_nsh := 0%Z; pc_cmi := []; pc_sur := []; pc_orders := []; pc_edges := [] |}")
+            pf.append(None)
+            desc.append({"stream": "pipeline", "kind": kind, "method": method, "n": n, "max_lag": L, "T": T, "n_shuffles": nsh, "salt": salt,
+                         "raised": f"{type(e).__name__}: {e}"[:300], "data_seed_note": f"seed={chk.seed} pipeline run={t - 1}"})
+            chk.count("pipeline.raised")
+            chk.case(key=("pipe-raised", t), nontrivial=False)
+            continue
+        if not scr.ok:                      # two lagged columns with equal content: regenerate (never seen for continuous data)
+            chk.count("pipeline.regenerated_ambiguous_columns")
+            continue
+        if ps.float_boundary(scr, [a_f, a_b] if kind != "lasso" else []):
+            chk.count("pipeline.rerun_float_boundary_at_non_dyadic_level")     # see pipe_seam.float_boundary; fresh draws, so this ends
+            continue
+        t += 1
+        f2, recs_sorted = wf_fail(G, names, L, nsh)
+        ins = getattr(G, "_ins", [])
+        ordered = f2 is None and len(ins) == G.number_of_edges() and all(
+            "lag" in d and "cmi" in d and "p_value" in d and u in names and v in names for u, v, d in ins)
+        if ordered:
+            recs = [(names.index(u), names.index(v), int(d["lag"]), float(d["cmi"]), int(round(d["p_value"] * nsh))) for u, v, d in ins]
+        else:
+            recs = recs_sorted
+        fa, fb = ps.frac(a_f), ps.frac(a_b)
+        chk.count("pipeline.insertion_order_observed" if ordered else "pipeline.insertion_order_not_observed")
+        tc, ts = ps.tables(scr)
+        seam_ok = not scr.bad and f2 is None and all(np.isfinite(r[3]) for r in recs)
+        meta = {"stream": "pipeline", "kind": kind, "method": method, "n": n, "max_lag": L, "T": T, "n_shuffles": nsh,
+                "alpha_forward": a_f, "alpha_backward": a_b, "salt": salt, "mode": mode, "seam": "below_dispatcher" if floor_seam else "discovery",
+                "dataframe": use_df, "edges_in_insertion_order": ordered, "edges": [list(r) for r in recs],
+                "backward_orders": orders, "unrecognised_calls": scr.bad[:3], "data_seed_note": f"seed={chk.seed} pipeline run={t - 1}"}
+        if not np.all(np.isfinite([r[3] for r in recs])):
+            recs = [(a, b, l, 0.0, k) for a, b, l, c, k in recs]
+        if kind == "lasso":
+            sup = supports if len(supports) == n else [[] for _ in range(n)]
+            meta["support"] = supports
+            lcases.append("{| lc_ordered := %s; lc_seam_ok := %s; lc_n := %d; lc_L := %d; lc_scale := %d%%positive; lc_aB := %d%%Z; "
+                          "lc_bB := %d%%Z; lc_nsh := %d%%Z; lc_cmi := %s; lc_sur := %s; lc_support := %s; lc_edges := %s |}" % (
+                              lib.coq_bool(ordered), lib.coq_bool(seam_ok and len(supports) == n), n, L, ps.SCALE, fb.numerator, fb.denominator, nsh,
+                              tc, ts, coq_list([coq_list([str(x) for x in S]) for S in sup]), edges_lit(recs)))
+            lpf.append(f2)
+            ldesc.append(meta)
+            chk.count("pipeline.lasso.runs")
+            chk.count("pipeline.lasso.edges", len(recs))
+            chk.case(key=("pipe-lasso", lcases[-1]), nontrivial=len(recs) > 0)
+            continue
+        per_t = {}
+        for tg, o in orders:
+            per_t.setdefault(tg, []).append(o)
+        ords = [per_t.get(i, [[]])[0] for i in range(n)]
+        if any(len(v) != 1 for v in per_t.values()) or len(per_t) != n:
+            seam_ok = False                 # backward()'s visiting order was not observed exactly once per target
+            meta["orders_note"] = "visiting order not observed exactly once per target"
+        cases.append("{| pc_std := %s; pc_ordered := %s; pc_seam_ok := %s; pc_n := %d; pc_L := %d; pc_scale := %d%%positive; "
+                     "pc_aF := %d%%Z; pc_bF := %d%%Z; pc_aB := %d%%Z; pc_bB := %d%%Z; pc_nsh := %d%%Z; pc_cmi := %s; pc_sur := %s; "
+                     "pc_orders := %s; pc_edges := %s |}" % (
+                         lib.coq_bool(method == "standard"), lib.coq_bool(ordered), lib.coq_bool(seam_ok), n, L, ps.SCALE,
+                         fa.numerator, fa.denominator, fb.numerator, fb.denominator, nsh, tc, ts,
+                         coq_list([coq_list([str(x) for x in o]) for o in ords]), edges_lit(recs)))
+        pf.append(f2)
+        desc.append(meta)
+        # ---- what happened inside (distribution of the scripted landscape)
+        pre = f"pipeline.{kind}."
+        chk.count(pre + "runs")
+        chk.count(f"pipeline.method.{method}")
+        chk.count("pipeline.level." + ("dyadic" if pool is DYADIC else "non_dyadic"))
+        chk.count("pipeline.seam." + ("below_dispatcher" if floor_seam else "discovery"))
+        acc = sum(len(o) for o in ords)
+        chk.count(pre + "forward_accepted", acc)
+        chk.count(pre + "pruned_in_backward", acc - len(recs))
+        chk.count(pre + "edges", len(recs))
+        chk.count(pre + "edges_with_cmi_0", sum(1 for r in recs if r[3] == 0))
+        chk.count(pre + "edges_with_p_1", sum(1 for r in recs if r[4] == nsh))
+        chk.count(pre + "edges_with_p_0", sum(1 for r in recs if r[4] == 0))
+        chk.count(pre + "graphs_empty" if not recs else pre + "graphs_with_edges")
+        chk.count(pre + "graphs_with_a_pruned_candidate", int(acc > len(recs)))
+        ps.stats_of(scr, chk, pre)
+        ntests = sum(1 for k_, _, _ in scr.log if k_ == "sur") // max(1, nsh)
+        chk.count(pre + "forward_rejected", ntests - 2 * acc - len(recs))
+        chk.case(key=("pipe", cases[-1]), nontrivial=len(recs) > 0 or acc > 0,
+                 sample=meta if len(recs) in (1, 2) and acc > len(recs) and n * L <= 4 else None)
+    chk.stats["pipeline.python_wall_s"] = round(time.time() - t_start, 1)
+    lib.correspond(chk, "whole_graph_vs_pipeline_model", PIPE_IMPORTS, "pcase", "check_pipeline_case", cases, pf,
+                   lambda i: desc[i], shard=10 if chk.tier == "quick" else 60, jobs=12)
+    lib.correspond(chk, "whole_graph_vs_pipeline_model_lasso", PIPE_IMPORTS, "lcase", "check_lasso_case", lcases, lpf,
+                   lambda i: ldesc[i], shard=8 if chk.tier == "quick" else 60, jobs=4)
+
+
 def run(chk):
     import causationentropy.core.discovery as disc
     rng = np.random.default_rng(chk.seed)
@@ -150,30 +318,7 @@ def run(chk):
             chk.case(key=("err", m_req, i_req, T, L), nontrivial=True)
             continue
         # ---- well-formedness of the returned graph
-        f2 = None
-        recs = []
-        if not isinstance(G, nx.MultiDiGraph):
-            f2 = f"returned {type(G).__name__}, not a multi-edge directed graph"
-        elif list(G.nodes()) != list(names):
-            f2 = f"nodes {list(G.nodes())} are not the input variables in input order {names}"
-        else:
-            for u, v, d in G.edges(data=True):
-                lag, cmi, p = d.get("lag"), d.get("cmi"), d.get("p_value")
-                if u not in names or v not in names:
-                    f2 = f"edge endpoint {(u, v)} is not an input variable"
-                elif isinstance(lag, (bool, np.bool_)) or not isinstance(lag, (int, np.integer)):
-                    f2 = f"lag {lag!r} of type {type(lag).__name__} is not an integer"
-                elif not (1 <= lag <= L):
-                    f2 = f"lag {lag} outside 1..{L}"
-                elif not isinstance(cmi, (float, int, np.floating, np.integer)) or (np.isfinite(cmi) and cmi < 0):
-                    f2 = f"cmi {cmi!r} is not a real number that is never finite negative"
-                elif p is None or not (0 <= p <= 1) or abs(p * nsh - round(p * nsh)) > 1e-9:
-                    f2 = f"p_value {p!r} is not a multiple of 1/{nsh} in [0,1]"
-                if f2:
-                    break
-                recs.append((names.index(u), names.index(v), int(lag), float(cmi), int(round(p * nsh))))
-            if f2 is None and len({r[:3] for r in recs}) != len(recs):
-                f2 = "a (source, target, lag) triple occurs twice"
+        f2, recs = wf_fail(G, names, L, nsh)
         wf_pf.append(f2)
         wf_cases.append(f"({n}%nat, {L}%nat, {nsh}%Z, " + coq_list(
             [f"({a}%nat, {b}%nat, {l}%nat, {coq_val(c)}, {k2}%Z)" for a, b, l, c, k2 in recs]) + ")" if f2 is None else
@@ -188,9 +333,22 @@ def run(chk):
                    va_cases, va_pf, lambda i: va_desc[i], shard=600, jobs=4)
     lib.correspond(chk, "returned_graph_wf_in_kernel", IMPORTS, "nat * nat * Z * list (nat * nat * nat * val * Z)", "check_wf_case",
                    wf_cases, wf_pf, lambda i: wf_desc[i], shard=600, jobs=4)
+    pipeline_stream(chk, disc)
+    chk.trusted += ["harness/pipe_seam.py: scripted estimator keyed by the abstract (variable, lag) identity of the columns it is handed "
+                    "(content matching against explicitly rebuilt lagged columns; surrogates by sorted content), recording numpy "
+                    "Generator / MultiDiGraph subclasses for backward()'s visiting order and the edge insertion order"]
+    chk.assumptions += ["pipeline stream: estimator values finite, on the 1/16 grid; the scripted estimator is a function of the "
+                        "conditioning SET; runs at a non-dyadic level in which an observed value equals the exact interpolated "
+                        "threshold between distinct order statistics are re-drawn (float rounding of 100*(1-alpha) decides there)"]
     chk.rule = ("discover_network called with real estimators over all 4x5 method/estimator pairs, ndarray / DataFrame (string and int "
                 "labels), C and Fortran order, float and int dtype, counts / tie-heavy small integers / continuous / constant column / "
                 "duplicated column, n 1..4, max_lag 1..3, T on both sides of max_lag+2, n_shuffles 2..40 and 101..199, malformed method/estimator "
                 "names. The returned graph is canonicalised to records and checked by the Coq wf_graph inside the kernel and by the "
                 "Python predicate; the outcome enum is compared with the Coq validate; the input object is compared bit-for-bit. "
-                "Non-trivial = graph has at least one edge (or an error outcome).")
+                "Non-trivial = graph has at least one edge (or an error outcome). "
+                "Pipeline stream: the real discover_network (standard / alternative / lasso / information_lasso, n 2..4, max_lag 1..3, "
+                "T 30..60, n_shuffles 2..60, dyadic and non-dyadic alpha_forward / alpha_backward, ndarray / DataFrame) with the "
+                "estimator replaced (at the discovery seam or below the real dispatcher) by a scripted function of the abstract "
+                "(target, X label, Z label set, surrogate index); graded landscapes and tie/floor landscapes (raw values -2..2). The same "
+                "oracle is handed to Coq as finite tables; discover_model is evaluated by vm_compute, must read only recorded entries, "
+                "and must return the implementation's edge list with cmi and p-value numerators in insertion order.")
